@@ -23,11 +23,12 @@ var c05Defs = map[string]string{
 	"@t": `"t" // {type: "@s"}`,
 	"@t2": `"u" // {type: "@s"}`,
 	"@ku": `@s | @t`,
+	"@km": `@s | @t // {type: "mixed"}`,
 	"@v": "{ // {allOf: \"@o\"}\n\t\"own\": 1\n}",
 	"@w": "{\n\t\"w\": @w, // {optional: true}\n\t\"u\": @s | @o\n}",
 }
-var c05Refs = map[string][]string{"@s": nil, "@o": nil, "@p": {"@s"}, "@q": {"@p"}, "@r": {"@s"}, "@t": {"@s"}, "@t2": {"@s"}, "@ku": {"@s", "@t"}, "@v": {"@o"}, "@w": {"@w", "@s", "@o"}}
-var c05All = []string{"@s", "@o", "@p", "@q", "@r", "@t", "@t2", "@ku", "@v", "@w"}
+var c05Refs = map[string][]string{"@s": nil, "@o": nil, "@p": {"@s"}, "@q": {"@p"}, "@r": {"@s"}, "@t": {"@s"}, "@t2": {"@s"}, "@ku": {"@s", "@t"}, "@km": {"@s", "@t"}, "@v": {"@o"}, "@w": {"@w", "@s", "@o"}}
+var c05All = []string{"@s", "@o", "@p", "@q", "@r", "@t", "@t2", "@ku", "@km", "@v", "@w"}
 var c05Extras = map[string]string{"@z1": `1`, "@z2": "{\n\t\"zz\": \"a\"\n}", "@z3": `1 // {or: [{type: "integer", min: 0}, {type: "boolean"}]}`}
 
 // c05Site: one reference site = a value text (single element, possibly with an
@@ -55,6 +56,7 @@ func c05Sites() []c05Site {
 	}
 	out = append(out, c05Site{Pos: "key-shortcut", Text: "{\n\t@s: 1\n}", Names: []string{"@s"}, Multi: true})
 	out = append(out, c05Site{Pos: "key-shortcut-union", Text: "{\n\t@ku: 1\n}", Names: []string{"@ku"}, Multi: true})
+	out = append(out, c05Site{Pos: "key-shortcut-union", Text: "{\n\t@km: 1\n}", Names: []string{"@km"}, Multi: true})
 	out = append(out, c05Site{Pos: "type-rule", Text: `"v"`, Ann: `{type: "@s"}`, Names: []string{"@s"}})
 	out = append(out, c05Site{Pos: "type-rule", Text: `"v"`, Ann: `{type: "@t"}`, Names: []string{"@t"}})
 	out = append(out, c05Site{Pos: "or-string-item", Text: `"v"`, Ann: `{or: ["@t", "@o"]}`, Names: []string{"@t", "@o"}})
@@ -332,11 +334,82 @@ func c05Roots(thorough ...bool) []c05Root {
 	return out
 }
 
+// c05DecoratedRoots: a value shortcut (or a choice) carrying every rule of a small list,
+// many of which the language refuses next to a reference.
+func c05DecoratedRoots() []c05Root {
+	anns := []string{
+		`{or: ["string", "integer"]}`, `{or: ["string", "null"]}`, `{or: [{type: "string"}, {type: "integer"}]}`, `{or: ["@o", "integer"]}`,
+		`{type: "mixed"}`, `{type: "any"}`, `{type: "string"}`, `{type: "mixed", or: ["string", "integer"]}`,
+		`{min: 1}`, `{minLength: 1}`, `{regex: "s"}`, `{const: true}`, `{const: false}`, `{enum: ["s"]}`, `{precision: 1}`,
+		`{nullable: true}`, `{nullable: false}`, `{nullable: true, or: ["string", "integer"]}`,
+		`{minItems: 0}`, `{additionalProperties: true}`, `{additionalProperties: "string"}`, `{allOf: "@o"}`, `{serializeFormat: "integer"}`,
+	}
+	var out []c05Root
+	for _, text := range []string{"@s", "@o", "@t", "@s | @o", "@ku"} {
+		names := strings.Split(text, " | ")
+		for _, ann := range anns {
+			ns := append([]string{}, names...)
+			if strings.Contains(ann, `"@o"`) && !strings.Contains(text, "@o") {
+				ns = append(ns, "@o")
+			}
+			s := c05Site{Pos: "decorated-shortcut", Text: text, Ann: ann, Names: ns}
+			out = append(out, c05Root{"root", []c05Site{s}}, c05Root{"property", []c05Site{s}}, c05Root{"item", []c05Site{s}})
+		}
+	}
+	return out
+}
+
+func c05Decorated(w *core.W, r c05Root, reg []string) {
+	registered := map[string]bool{}
+	for _, n := range reg {
+		registered[n] = true
+	}
+	// names written as the example value itself (the annotation may be refused as a whole,
+	// the value shortcut may not be forgotten)
+	var missing []string
+	seen := map[string]bool{}
+	queue := strings.Split(r.Sites[0].Text, " | ")
+	for len(queue) > 0 {
+		n := queue[0]
+		queue = queue[1:]
+		if seen[n] {
+			continue
+		}
+		seen[n] = true
+		if !registered[n] {
+			missing = append(missing, n)
+			continue
+		}
+		queue = append(queue, c05Refs[n]...)
+	}
+	w.S.Evaluations++
+	w.S.Traces++
+	w.S.Transitions++
+	p := c05Project(r, reg, nil)
+	o, _ := observe(p)
+	wit, _ := stdjson.Marshal(c05Wit{Root: r, Reg: reg})
+	if o.Panic != "" {
+		w.Violate(core.Violation{Clause: "no-panic", Entry: r.Shape, Input: p.describe(), Witness: wit, Detail: o.Panic, Sig: map[string]string{"pos": "decorated-shortcut"}})
+		return
+	}
+	if o.Code != 0 {
+		w.Class(fmt.Sprintf("decorated-refused:%d", o.Code))
+		return
+	}
+	w.S.Nontrivial++
+	w.Class("decorated-accepted")
+	if len(missing) > 0 {
+		w.Violate(core.Violation{Clause: "reference-never-dropped", Entry: r.Shape, Input: p.describe(), Witness: wit,
+			Detail: fmt.Sprintf("the example value refers to %v, which is not registered, yet Check() accepts the project (UsedUserTypes()=[%s])", missing, o.Used),
+			Sig:    map[string]string{"pos": "decorated-shortcut", "ann": r.Sites[0].Ann}})
+	}
+}
+
 func init() {
 	Register(&Prop{
 		ID:        "C05",
 		Technique: "bounded exhaustive enumeration of schema projects x every subset of type definitions registered or withheld x unreferenced extra types, judged by a reachability reference over the model",
-		Rule:      "roots with one or two reference sites from the 8 positions (value shortcut, @a | @b, key shortcut, type, or string item, or {type} item, allOf scalar and list, additionalProperties) at the root, in a property, in an array item; 10 closed definitions (string, object, object->string, object->object->string, and types referring onwards through additionalProperties, type, allOf, a self reference and a choice) x every subset of the reachable closure registered or withheld x {0,1,2} unreferenced valid types; thorough: all pairs and three-site roots; clauses: UsedUserTypes() = names in the root text without duplicates; 1302 naming a missing type iff a name reachable through registered definitions is unregistered; extras change no observable; non-trivial = projects outside the excluded region",
+		Rule:      "roots with one or two reference sites from the 8 positions (value shortcut, @a | @b, key shortcut, type, or string item, or {type} item, allOf scalar and list, additionalProperties) at the root, in a property, in an array item; 11 closed definitions (string, object, object->string, object->object->string, and types referring onwards through additionalProperties, type, allOf, a self reference, a choice and a choice that spells out type mixed) x every subset of the reachable closure registered or withheld x {0,1,2} unreferenced valid types; thorough: all pairs and three-site roots; clauses: UsedUserTypes() = names in the root text without duplicates; 1302 naming a missing type iff a name reachable through registered definitions is unregistered; extras change no observable; a value shortcut or choice decorated with each of 23 annotations (most of which the language refuses next to a reference) is never accepted while a type it reaches is unregistered; non-trivial = projects outside the excluded region",
 		Bounds: func(tier string) map[string]any {
 			return map[string]any{"sites": len(c05Sites()), "roots": len(c05Roots()), "definitions": len(c05All)}
 		},
@@ -366,6 +439,25 @@ func init() {
 					w.Sample(r.text())
 				}
 			}
+			// references written with rules the language may refuse: whatever the verdict
+			// on the rules, a project that names an unregistered type is never accepted
+			for _, r := range c05DecoratedRoots() {
+				i++
+				if !w.Mine(i) {
+					continue
+				}
+				cl := c05Closure(r.names())
+				for mask := 0; mask < 1<<len(cl); mask++ {
+					var reg []string
+					for b, n := range cl {
+						if mask&(1<<b) != 0 {
+							reg = append(reg, n)
+						}
+					}
+					c05Decorated(w, r, reg)
+					states++
+				}
+			}
 			w.S.States += states
 			if w.Shard == 0 {
 				w.Count("roots", i)
@@ -374,6 +466,10 @@ func init() {
 		Replay: func(w *core.W, v *core.Violation) {
 			var wit c05Wit
 			if stdjson.Unmarshal(v.Witness, &wit) == nil {
+				if v.Clause == "reference-never-dropped" {
+					c05Decorated(w, wit.Root, wit.Reg)
+					return
+				}
 				c05Case(w, wit.Root, wit.Reg)
 			}
 		},
